@@ -67,7 +67,7 @@ class Sim:
         while self.i < len(self.ins):
             k, a = self.ins[self.i]
             self.i += 1
-            if k in (1, 9):
+            if k in (1, 9, 10):
                 return ("yield", 0)
             if k == 3:
                 return ("pend", a)
@@ -91,7 +91,7 @@ def close_case(c):
     live = True
     for o in ops[1:]:
         if not o or not live: continue
-        if o[0] == 1 and len(o) == 3 and waiting is None and 0 <= o[1] <= 6 and not (ha and o[1] == 1):
+        if o[0] == 1 and len(o) == 3 and waiting is None and 0 <= (o[1] - 10 if 10 <= o[1] <= 16 else o[1]) <= 6 and not (ha and o[1] in (1, 11)):
             if not sim.ended:
                 kind, k = sim.advance()
                 waiting = k if kind == "pend" else None
@@ -107,8 +107,9 @@ def close_case(c):
     return Case(c.engine, c.name, ops, c.meta)
 
 
-def gen_case(rng, engine, name, styles, script, n_acc, destroy_early, malformed, peek_p=0.15):
+def gen_case(rng, engine, name, styles, script, n_acc, destroy_early, malformed, peek_p=0.15, coro_p=0.0):
     ha = engine == "gen1"
+    has_pend = any(script[i] == 3 for i in range(0, len(script) - 1, 2))
     ops = [[0] + script]
     sim = Sim(script if ha else [x if (i % 2 or x not in (8, 9)) else 12 for i, x in enumerate(script)])
     after_end = 0
@@ -120,6 +121,9 @@ def gen_case(rng, engine, name, styles, script, n_acc, destroy_early, malformed,
             if after_end > 3:
                 break
         y = rng.choice(styles)
+        if coro_p and rng.random() < coro_p and not (y == 2 and has_pend):
+            y += 10        # the same style issued from inside a running coroutine (a blocking future wait on a
+                           # pending body is excluded: the library asserts "Blocking wait in a coroutine")
         ops.append([1, y, rng.randint(100, 140) if ha else 0])
         if sim.ended:
             continue
@@ -182,6 +186,35 @@ def gen(seed, tier):
                         def random(self): return 0.99
                         def randint(self, a, c): return rng.randint(a, c)
                     cases.append(gen_case(R(), eng, "x%d" % b, styles, sc, 7, None, False)); b += 1
+    # consumer inside a running coroutine: every style, fixed scripts
+    for eng, scripts, styles in (("gen0", FIXED_SCRIPTS, STYLES0), ("gen1", FIXED_SCRIPTS1, STYLES1)):
+        for sc in scripts:
+            for y in styles:
+                cases.append(gen_case(rng, eng, "k%d" % b, [y], sc, 8, None, False, coro_p=1.0)); b += 1
+            cases.append(gen_case(rng, eng, "k%d" % b, styles, sc, 8, None, False, coro_p=0.5)); b += 1
+    # engine gent: generator<MV> (move-observable value); temporaries (kind 1) and a reused local (kind 10)
+    T_SCRIPTS = [
+        [1, 5, 10, 1, 10, 2, 10, 3, 1, 9, 10, 4],
+        [10, 1, 1, 7, 10, 1, 10, 1, 3, 1, 10, 1],
+        [6, 101, 1, 1, 10, 2, 3, 1, 1, 3, 10, 4, 4, 7],
+        [10, 3, 10, 3, 10, 3],
+    ]
+    for sc in T_SCRIPTS:
+        for y in STYLES0:
+            cases.append(gen_case(rng, "gent", "t%d" % b, [y], sc, 8, None, False)); b += 1
+        for _ in range(3):
+            cases.append(gen_case(rng, "gent", "t%d" % b, STYLES0, sc, 8, rng.choice([None, None, 2]), False, coro_p=0.2)); b += 1
+    for i in range(20 if quick else 300):
+        sc = []
+        for _ in range(rng.randint(2, 8)):
+            r = rng.random()
+            if r < 0.3: sc += [1, rng.randint(1, 50)]
+            elif r < 0.75: sc += [10, rng.randint(1, 9)]
+            elif r < 0.85: sc += [3, 1]
+            elif r < 0.95: sc += [6, 100 + len(sc)]
+            else: sc += [2, 3]
+        if rng.random() < 0.2: sc += [4, 5]
+        cases.append(gen_case(rng, "gent", "t%d" % b, rng.choice([STYLES0, [2, 4], [2], [0, 2]]), sc, rng.randint(2, 9), rng.choice([None, None, 3]), False, coro_p=0.1)); b += 1
     # smoke engine: the same bodies with the frame in a reusable_storage
     for k, sc in enumerate(FIXED_SCRIPTS):
         cases.append(gen_case(rng, "gens", "s%d" % k, STYLES0, sc, 8, rng.choice([None, 1, 2]), False))
@@ -200,7 +233,7 @@ def gen(seed, tier):
             styles = styles_all
         sc = gen_script(rng, ha, rng.randint(0, 9), rng.choice([0.0, 0.12, 0.25]), rng.choice([0, 0, 1, 2, 3]))
         de = rng.choice([None, None, 0, 1, 2, 3])
-        cases.append(gen_case(rng, eng, "g%d" % i, styles, sc, rng.randint(1, 10), de, rng.random() < 0.2))
+        cases.append(gen_case(rng, eng, "g%d" % i, styles, sc, rng.randint(1, 10), de, rng.random() < 0.2, coro_p=rng.choice([0.0, 0.0, 0.3, 1.0])))
     return cases
 
 
@@ -268,9 +301,13 @@ def gen_ctl(seed, tier):
             for _ in range(nacc):
                 ops.append([1, rng.choice(styles), rng.randint(100, 140) if ha else 0])
         ops.append([3])
+        has_pend = any(sc[i] == 3 for i in range(0, len(sc) - 1, 2))
         for _ in range(nsched):
             sched = [9] + [rng.randint(0, 3) for _ in range(rng.randint(10, 80))]
-            cases.append(Case(eng, "c%d" % b, ops + [sched])); b += 1
+            o2 = ops
+            if rng.random() < 0.4:      # the consumer thread issues its accesses from inside a running coroutine
+                o2 = [[o[0], o[1] + 10, o[2]] if o[0] == 1 and not (o[1] == 2 and has_pend) else o for o in ops]
+            cases.append(Case(eng, "c%d" % b, o2 + [sched])); b += 1
     for sc in scripts0:
         for styles in ([0], [1], [2], [3], [4], [5], [6], [6], [7], [8], [8, 6, 3], [0, 1, 2, 3, 4, 5, 6], [7, 0, 3]):
             one("genc0", sc, styles, 7, 2 if quick else 12)
